@@ -86,7 +86,7 @@ def occ_remove_entry (i : Nat) : SM K V Q (K × V) := remove_index_read i
 
 def occ_remove (i : Nat) : SM K V Q V := do
   let p ← remove_index_read i
-  unwindWith (dropV E p.2) (dropK p.1)
+  unwindWith (leak (.v p.2)) (dropK p.1)   -- return place is not dropped when the key's drop unwinds
   pure p.2
 
 end
